@@ -124,6 +124,133 @@ def sink_cycles(rnd, n):
     return out
 
 
+def graph_grammars(tier, seed):
+    """definition graphs as grammars: every digraph on three definitions (self-loops included) and random ones on 4-7; the names
+    are drawn per grammar because the order in which complgen walks its name-keyed hash tables depends on them"""
+    rnd = random.Random(seed * 7919 + 11)
+    graphs = []
+    for mask in range(1 << 9):
+        graphs.append((3, {(a, b) for i, (a, b) in enumerate((a, b) for a in range(3) for b in range(3)) if mask >> i & 1}))
+    for _ in range(400 if tier == "quick" else 6000):
+        k = rnd.randint(4, 7)
+        dens = rnd.choice([0.1, 0.2, 0.35])
+        graphs.append((k, {(a, b) for a in range(k) for b in range(k) if rnd.random() < dens * (0.3 if a == b else 1)}))
+    out = []
+    for gi, (k, edges) in enumerate(graphs):
+        names = []
+        while len(names) < k:
+            nm = rnd.choice("ABCDEFGHJKLMNOPQRSTVWYZ") + "".join(rnd.choice("abcdefghijklmnopqrstuvwxyz0123456789") for _ in range(rnd.randint(1, 5)))
+            if nm not in names:
+                names.append(nm)
+        lines = ["cmd go <%s>;" % names[0] if gi % 2 else "cmd plain;"]
+        order = list(range(k))
+        rnd.shuffle(order)
+        for a in order:
+            items = ["w%d" % a] + ["<%s>" % names[b] for b in range(k) if (a, b) in edges]
+            rnd.shuffle(items)
+            lines.append("<%s> ::= %s;" % (names[a], (" | " if rnd.random() < 0.3 else " ").join(items)))
+        graph = [[names[a], sorted(names[b] for b in range(k) if (a, b) in edges)] for a in range(k)]
+        out.append({"id": gi + 1, "usage": "\n".join(lines) + "\n", "shell": rnd.choice(["bash", "fish", "zsh", "pwsh"]), "graph": graph})
+    return out
+
+
+def resolve_mechanism(tier, seed, v, corrupt=None, env=None):
+    """Resolve.tla / ResolveTrace.tla: (i) trace validation - the steps the instrumented get_nonterminals_resolution_order reported
+    (hook events ro_*, feature `verif`) are a behaviour of the model whose constants are the GENERATOR's dependency graph, and the
+    verdict of validation is the one the model ends in (cycle error iff the graph is cyclic: a C08 verdict, confirmed with the real
+    binary before it is reported); (ii) design level - every iteration order on every graph of three definitions (notes)."""
+    import os, subprocess, tempfile
+    cases = graph_grammars(tier, seed)
+    rec = core.record("order", [{"id": c["id"], "usage": c["usage"], "shell": c["shell"]} for c in cases])
+    tcases, graph_differs = [], 0
+    for c, r in zip(cases, rec):
+        o = r["obs"]
+        evs = o.get("events", [])
+        c["_verdict"] = "ok" if o.get("verdict") == "ok" else (o.get("err", {}).get("class", "other") if o.get("verdict") == "error" else "panic")
+        c["_msg"] = o.get("msg", "")
+        if evs and evs[0].get("ev") == "ro_init":
+            reported = sorted([g[0], sorted(g[1])] for g in evs[0]["graph"])
+            if reported != sorted(c["graph"]):
+                graph_differs += 1
+            evs = evs[1:]
+        tcases.append({"id": c["id"], "graph": c["graph"], "events": evs, "verdict": c["_verdict"]})
+    if corrupt:
+        corrupt(tcases)
+    res = core.run_tlc_sharded("ResolveTrace.tla", "ResolveTrace.cfg", tcases, shards=8, workers=1, prefix="resolvetrace", timeout=3000, env=env)
+    acc = {x[0]: (x[1], x[2]) for x in res.tagged("ACCEPTED")}
+    expect = {x[0]: x[1] for x in res.tagged("EXPECT")}
+    at = {}
+    for x in res.tagged("AT"):
+        at[x[0]] = max(at.get(x[0], 0), x[1])
+    mech = sorted({(x[0], x[1]) for x in res.tagged("MECH")})
+    byid = {c["id"]: c for c in cases}
+    if len(expect) < len(cases):
+        raise core.ToolError("ResolveTrace: %d of %d cases evaluated" % (len(expect), len(cases)))
+    rejected = [c["id"] for c in tcases if c["id"] not in acc]
+    for i in rejected[:3]:
+        core.log("MODEL-DRIFT (not a verdict): the recorded steps of get_nonterminals_resolution_order for %r are not a behaviour of Resolve.tla (matched %d of %d events)" % (
+            byid[i]["usage"].replace("\n", " "), at.get(i, 0), len(tcases[i - 1]["events"])))
+    for i, what in mech[:3]:
+        core.log("MODEL-DRIFT (not a verdict): `%s` of Resolve.tla broken on the recorded steps for %r" % (what, byid[i]["usage"].replace("\n", " ")))
+    # verdicts: cyclic (per Resolve.tla's schedule-free reference on the generator's graph) <=> cycle error, else accepted
+    nver = 0
+    for c in cases:
+        want = "cycle" if expect[c["id"]] == "cyclic" else "ok"
+        if c["_verdict"] == want:
+            nver += 1
+            continue
+        tmp = tempfile.mkdtemp(prefix="resolve-", dir=os.path.join(core.WORK, "tlc"))
+        src = os.path.join(tmp, "in.usage")
+        open(src, "w").write(c["usage"])
+        p = subprocess.run([core.BIN, "--" + c["shell"], os.path.join(tmp, "out"), src], capture_output=True, text=True, timeout=120)
+        cls = diag_class(p.stderr) if p.returncode != 0 else ""
+        __import__("shutil").rmtree(tmp, ignore_errors=True)
+        real = "ok" if p.returncode == 0 else cls
+        if real == want:
+            continue            # the in-process observation did not reproduce with the real binary: not reported
+        crash = p.returncode not in (0, 1)
+        sig = {"kind": "crash" if crash else ("missed" if want == "cycle" else "false_reject"), "expected": ["cycle"] if want == "cycle" else [],
+               "observed": cls, "planted": "cycle" if want == "cycle" else "", "site_shape": "definition_graph"}
+        if crash:
+            sig["how"] = cls
+            m2 = re.search(r"panicked at \S*?(src/[a-z_]+\.rs)", p.stderr)
+            sig["where"] = m2.group(1) if m2 else ""
+        what = "%s [%s]: definition graph is %s, expected %s, observed exit %d class `%s`%s" % (
+            c["usage"].strip().replace("\n", " "), c["shell"], expect[c["id"]], "exit 1 with `cycle`" if want == "cycle" else "exit 0",
+            p.returncode, cls, " stderr: " + p.stderr[:160].replace("\n", " | ") if crash else "")
+        v.mismatch(sig, what, {"usage": c["usage"], "shell": c["shell"], "expected": sig["expected"], "observed": {"exit": p.returncode, "class": cls}})
+    out = {"graph_grammars": len(cases), "cyclic": sum(1 for x in expect.values() if x == "cyclic"), "verdicts_as_the_model_says": nver,
+           "traces": len(tcases), "traces_accepted": len(acc), "traces_not_a_behaviour": len(rejected), "trace_events": sum(len(c["events"]) for c in tcases),
+           "traces_ending_in_cycle": sum(1 for a in acc.values() if a[0] == "cycle"), "traces_ending_in_done": sum(1 for a in acc.values() if a[0] == "done"),
+           "reported_graph_differs_from_generators": graph_differs, "invariant_reports_on_traces": len(mech), "rejected_ids": rejected[:10],
+           "trace_states": res.distinct}
+    # design level: all iteration orders on all graphs of three definitions
+    small = []
+    names = ["A", "B", "C"]
+    pairs = [(a, b) for a in range(3) for b in range(3)]
+    for mask in range(1 << 9):
+        small.append({"id": mask + 1, "graph": [[names[a], [names[b] for i, (x, b) in enumerate(pairs) if x == a and mask >> i & 1]] for a in range(3)]})
+    if tier != "quick":
+        rnd = random.Random(seed)
+        n4 = ["A", "B", "C", "D"]
+        p4 = [(a, b) for a in range(4) for b in range(4)]
+        for k in range(4000):
+            mask = rnd.getrandbits(16)
+            small.append({"id": 1000 + k, "graph": [[n4[a], [n4[b] for i, (x, b) in enumerate(p4) if x == a and mask >> i & 1]] for a in range(4)]})
+    res2 = core.run_tlc_sharded("Resolve.tla", "Resolve.cfg", small, shards=8, workers=2, prefix="resolve", timeout=3000, env=env)
+    ends = {}
+    for x in res2.tagged("END"):
+        ends.setdefault(x[0], set()).add((x[1], x[2]))
+    bad = sorted({(x[0], x[1]) for x in res2.tagged("MECH")})
+    for i, what in bad[:5]:
+        core.log("MODEL-PREDICTION (design level, not a verdict): some iteration order of the modelled resolution-order search breaks `%s` on graph %s" % (what, json.dumps([s for s in small if s["id"] == i][0]["graph"])))
+    out.update({"design_graphs": len(small), "design_terminated": len(ends), "design_states": res2.distinct, "design_transitions": res2.generated,
+                "design_invariant_reports": len(bad), "graphs_with_more_than_one_possible_order": sum(1 for e in ends.values() if len(e) > 1),
+                "note": "every order of trying roots and following children, as modelled in Resolve.tla (Walk, CycleSound, CycleComplete, Reachable, "
+                        "OrderOk, Once in every state), on every digraph over three definitions%s" % ("" if tier == "quick" else " and 4000 random ones over four")})
+    return out
+
+
 def build_corpus(tier, seed):
     rnd = random.Random(seed)
     nbase = 60 if tier == "quick" else 700
@@ -208,6 +335,7 @@ def run(tier):
             c["usage"].strip().replace("\n", " "), c["shell"], "exit 0" if not d["expected"] else "exit 1 with one of %s" % sorted(d["expected"]),
             d["exit"], d["class"], d["libclass"], " stderr: " + o.get("stderr", "")[:160].replace("\n", " | ") if d["kind"] == "crash" else "")
         v.mismatch(sig, what, {"usage": c["usage"], "shell": c["shell"], "expected": sorted(d["expected"]), "observed": {"exit": d["exit"], "class": d["class"]}})
+    mechanism = resolve_mechanism(tier, seed, v)
     val = res.tagged("VALIDATED")
     nval, nskip, ndoubt = len(val), len(res.tagged("SKIPPED")), len(res.tagged("ORACLE-DOUBT"))
     if nval + nskip + ndoubt < len(cases) or nval < len(cases) // 2:
@@ -232,7 +360,7 @@ def run(tier):
            "programs": len({c["usage"] for c in cases}), "evaluations": len(cases), "skipped_open_region": nskip, "oracle_doubts": ndoubt, "oracle_doubts_by_class": {k: len(x) for k, x in doubts.items()},
            "distinct_nontrivial": len({(c["usage"], c["shell"]) for c in cases if c["planted"]}),
            "clean_validated": sum(1 for x in val if x[1] == "clean"), "ill_formed_validated": sum(1 for x in val if x[1] == "ill-formed"),
-           "per_planted_class": per_class, "front_end": stats,
+           "per_planted_class": per_class, "front_end": stats, "resolution_order_mechanism": mechanism,
            "rule": "seeded clean-by-construction grammars (0-4 definitions, shell-specific definitions, within-word expressions, || levels, descriptions) "
                    "each as is and with one planted mistake per class at a random site (variant or used definition, behind 0-3 definitions, under "
                    "seq/alt/[ ]/.../||), x 4 shells; non-trivial = planted grammar, distinct by (usage, shell)",
